@@ -24,8 +24,17 @@ HOSTILE = ['*/ int x; /*', '#include <evil>', 'ends with backslash \\', 'two\\\n
            '#define X 1', '"unterminated', "'", '//', '/*', 'é ü 漢字', '}', '};', '']
 
 
+LONG_LINES = ['Copyright (c) ' + 'Permission is hereby granted to any person obtaining a copy. ' * 6,
+              'x' * 253, 'path/' * 60, ('word ' * 70).strip(), 'y' * 1000,
+              'int injected; ' * 30]
+
+
 def rand_comment_content(rng: random.Random):
     r = rng.random()
+    if rng.random() < 0.05:
+        # a notice pasted as one line of several hundred characters
+        return rng.choice([rng.choice(LONG_LINES), [rng.choice(LONG_LINES), 'short'],
+                           ['a', rng.choice(LONG_LINES)]])
     if rng.random() < 0.15:
         # the text arrives as a text block of its own that carries a header (a tool re-using
         # its "Release notes:" block), handed over directly or among other pieces
@@ -126,6 +135,8 @@ def eval_case(case: dict) -> dict:
         before = list(com.lines)
         first = str(com)
         cnt['comments_rendered'] = 1
+        if any(len(ln) > 252 for ln in lines):
+            cnt['comments_with_lines_beyond_252_characters'] = 1
         cnt['comment_lines_judged'] = len(lines)
         if any(any(ch in txt for ch in '\r\x0b\x0c\x1c\x1d\x1e\x85\u2028\u2029')
                for txt in _strings(enc)):
@@ -330,6 +341,7 @@ def main(tier: str) -> int:
     n_pairs = 10 if tier == 'quick' else 200
     run.require('comments_rendered', 'comment_lines_judged', 'content_is_a_headed_text_block',
                 'pieces_that_are_one_object_at_several_places',
+                'comments_with_lines_beyond_252_characters',
                 'content_holds_a_headed_text_block', 'filled_via_iadd', 'filled_via_append', 'with_unusual_separators',
                 'extended_after_render', 'changed_after_render_via_lines-list',
                 'changed_after_render_via_lines-setter', 'changed_after_render_via_trim',
